@@ -316,10 +316,11 @@ Fixpoint m_eval (e : expr) : eres :=
           | C05.Model.Fault => Fault
           end
         else
-          if match c1, c2 with Some a, Some b => negb (N.eqb (cclass a) (cclass b)) | _, _ => false end then Undef else
           let folded :=
             match c1, c2 with
             | Some a, Some b =>
+                if negb (N.eqb (cclass a) (cclass b)) then None     (* operands of different classes are not folded *)
+                else
                 Some (if is_compare op then const_compare op a b
                       else const_binop op (match op with BQuo => is_integer_kind k1 && is_integer_kind k2 | _ => false end) a b)
             | _, _ => None
